@@ -110,6 +110,12 @@ CAP(z) == {Cap(a) : a \in Close({Lit(sa), Lit(sb), Emp}, TRUE)}
        \cup {Cat(CapN(a, <<110>>), Cat(Lit(sdash), CapN(b, <<109,50>>))) :
                    a \in {Plus(Cls({sa,sb}),TRUE), Star(Lit(sa),TRUE)}, b \in {Plus(Cls({s0,s1}),TRUE), Quest(Lit(s0),TRUE)}}
 
+(* ---- a group that takes part in a failed attempt (or an earlier alternative) and not in the match ---- *)
+CAPX(z) == {Cat(x, t) : x \in {Quest(Cap(Lit(sa)), TRUE), Star(Cap(Lit(sa)), TRUE), Alt(Cat(Cap(Lit(sa)), Lit(sx)), Lit(sb)),
+                                Alt(Cap(Lit(sa)), Lit(sb)), Quest(Cap(Alt(Lit(sa), Lit(sb))), TRUE), Cat(Cap(Lit(sa)), Quest(Lit(sx), TRUE)),
+                                Quest(Cat(Cap(Plus(Cls({s0,s1}), TRUE)), Lit(sdot)), TRUE)},
+                         t \in {Lit(sb), Lit(sc), Cat(Plus(Lit(sb), TRUE), Lit(sc)), Cap(Lit(sc)), Cap(Plus(Cls({s0,s1}), TRUE))}}
+
 (* ---- counted repetition ---- *)
 RepOK(mn, mx) == mx = -1 \/ (mx >= mn /\ mx >= 1) \/ (mn = 0 /\ mx = 0)
 REP(z) == {Rep(t[1], t[2], t[3], t[4]) :
@@ -151,7 +157,7 @@ FamilySet(f) ==
     [] f = "ANC" -> ANC(0)
     [] f = "CC"  -> CC(0) \cup CC3(0)
     [] f = "DIG" -> DIG(0)
-    [] f = "CAP" -> CAP(0) \cup REP(0)
+    [] f = "CAP" -> CAP(0) \cup REP(0) \cup CAPX(0)
     [] f = "U8"  -> U8(0)
 
 G2Base(f) == SetToSeq(Close(CASE f = "G2a" -> G2aAtoms [] f = "G2m" -> G2mAtoms [] f = "G2u" -> G2uAtoms [] f = "G2x" -> G2xAtoms, f # "G2u"))
